@@ -302,7 +302,7 @@ def shrink(case: dict, still_fails) -> dict:
         c2["ks"] = "all"
         return c2
 
-    kept = ddmin(flat, lambda kp: still_fails(build(kp)), max_tests=60)
+    kept = ddmin(flat, lambda kp: still_fails(build(kp)), max_tests=16)
     small = build(kept)
     E2, _ = _count_events(small)
     for k in range((E2 or 0) + 1):
